@@ -216,8 +216,16 @@ PlanMaof(wd, wbase) ==
     IN FoldLeft(wstep, [off |-> wbase, tab |-> ZeroMaof], word).tab
 ExpectedMaof(wd) == PlanMaof(wd, WdlTilesBase(wd))
 
-\* parser.rs version detection when the parser is created with WdlVersion::Latest
+\* parser.rs version detection when the parser is created with WdlVersion::Latest (as coded since
+\* 19bcef3): WMO chunks are carried by Wotlk..Wod only, so their presence means a Wotlk-class file
 DetectWdl(wtags, whint) ==
+    IF whint # "Latest" THEN whint
+    ELSE IF \E wi \in 1..Len(wtags) : wtags[wi] \in {"MLDD", "MLDX", "MLMD", "MLMX"} THEN "Legion"
+    ELSE IF \E wi \in 1..Len(wtags) : wtags[wi] \in {"MWMO", "MWID", "MODF"} THEN "Wotlk"
+    ELSE "Latest"
+\* the detection before 19bcef3 (kept as a named deviation, see LR_DetectVanillaForWmo): WMO chunks
+\* without any MAHO answered Vanilla, a version that cannot carry WMO chunks
+DetectWdlPreFix(wtags, whint) ==
     IF whint # "Latest" THEN whint
     ELSE IF \E wi \in 1..Len(wtags) : wtags[wi] \in {"MLDD", "MLDX", "MLMD", "MLMX"} THEN "Legion"
     ELSE IF \E wi \in 1..Len(wtags) : wtags[wi] \in {"MWMO", "MWID", "MODF"}
@@ -254,7 +262,7 @@ NoPay == <<>>
 EmptyRd == [flags |-> {}, main |-> {}, hasMaid |-> FALSE, nSec |-> 0, hasMwmo |-> FALSE, names |-> <<>>,
             hasModf |-> FALSE, nModf |-> 0, got |-> {}, det |-> "?"]
 EmptyLrd == [tags |-> <<>>, names |-> <<>>, nIdx |-> 0, nPlace |-> 0, nMldd |-> 0, nMldx |-> 0, nMlmd |-> 0, nMlmx |-> 0,
-             tiles |-> {}, holes |-> {}, det |-> "?", bad |-> FALSE]
+             tiles |-> {}, holes |-> {}, det |-> "?", hint |-> "?", dev |-> {}, bad |-> FALSE]
 
 WStart(wfmt, wd) == /\ vfmt = wfmt /\ vdef = wd /\ vpc = "w0"
                     /\ vcf = CF_Init(0, 2147483647)
@@ -371,9 +379,19 @@ LR_Scan == /\ vfmt = "wdl" /\ vpc = "r" /\ vrpos <= Len(vcf.seen)
                        [] OTHER -> wr
            /\ vrpos' = vrpos + 1
            /\ UNCHANGED <<vfmt, vdef, vpc, vcf, vmaof>>
+\* the parser is created either for the file's version or with WdlVersion::Latest (auto-detect)
 LR_Detect == /\ vfmt = "wdl" /\ vpc = "r" /\ vrpos = Len(vcf.seen) + 1
              /\ \E wi \in 1..Len(vrd.tags) : vrd.tags[wi] = "MVER"
-             /\ vrd' = [vrd EXCEPT !.det = DetectWdl(vrd.tags, vdef.ver)]
+             /\ \E whint \in {vdef.ver, "Latest"} :
+                  vrd' = [vrd EXCEPT !.det = DetectWdl(vrd.tags, whint), !.hint = whint]
+             /\ vpc' = "r2"
+             /\ UNCHANGED <<vfmt, vdef, vcf, vrpos, vmaof>>
+\* named deviation (the code before 19bcef3): auto-detection answers Vanilla for WMO chunks without MAHO
+LR_DetectVanillaForWmo ==
+             /\ vfmt = "wdl" /\ vpc = "r" /\ vrpos = Len(vcf.seen) + 1
+             /\ \E wi \in 1..Len(vrd.tags) : vrd.tags[wi] = "MVER"
+             /\ DetectWdlPreFix(vrd.tags, "Latest") # DetectWdl(vrd.tags, "Latest")
+             /\ vrd' = [vrd EXCEPT !.det = DetectWdlPreFix(vrd.tags, "Latest"), !.hint = "Latest", !.dev = {"detect-vanilla-for-wmo"}]
              /\ vpc' = "r2"
              /\ UNCHANGED <<vfmt, vdef, vcf, vrpos, vmaof>>
 \* pass 2: for every non-zero MAOF entry seek to it; the chunk there must be a MARE; the next chunk
@@ -386,7 +404,7 @@ LR_Tiles == /\ vfmt = "wdl" /\ vpc = "r2"
                    wofs(wt) == wtab[TileIdx(wt[1], wt[2])]
                    wbad  == \E wt \in wtl : ~CF_PointsAt(vcf.seen, wofs(wt), "MARE")
                    wat(wt) == CF_IndexAt(vcf.seen, wofs(wt))
-                   wholes == {wt \in wtl : /\ HasMaho(vdef.ver)
+                   wholes == {wt \in wtl : /\ HasMaho(vrd.hint)
                                            /\ wat(wt) + 1 <= Len(vcf.seen)
                                            /\ vcf.seen[wat(wt) + 1].tag = "MAHO"}
                IN vrd' = IF wbad THEN [vrd EXCEPT !.bad = TRUE]
@@ -401,7 +419,7 @@ ReadBackWdl == [ver |-> vrd.det, tiles |-> {wp[1] : wp \in vrd.tiles}, holes |->
 MachineNext == \/ W_Mver \/ W_Mphd \/ W_Main \/ W_Maid \/ W_Mwmo \/ W_MwmoSuppressed \/ W_Modf
                \/ R_Chunk \/ R_Eof
                \/ L_Mver \/ L_WmoGroup \/ L_WmoSkipped \/ L_Ml \/ L_PlanOffsets \/ L_Maof \/ L_Tile \/ L_Finish
-               \/ LR_Scan \/ LR_Detect \/ LR_Tiles
+               \/ LR_Scan \/ LR_Detect \/ LR_DetectVanillaForWmo \/ LR_Tiles
 
 \* ================================ invariants of the machines =====================================
 \* what has been emitted so far is a prefix of the functional layout, and tiles the written bytes
@@ -443,7 +461,12 @@ WdlRoundTrip == (vfmt = "wdl" /\ vpc = "done" /\ WdlValid(vdef)) =>
     /\ vrd.holes = {<<wt, wt>> : wt \in vdef.holes}
     /\ vrd.names = vdef.names /\ vrd.nIdx = vdef.nIdx /\ vrd.nPlace = vdef.nPlace
     /\ vrd.nMldd = vdef.nMldd /\ vrd.nMldx = vdef.nMldd /\ vrd.nMlmd = vdef.nMlmd /\ vrd.nMlmx = vdef.nMlmd
-    /\ WdlChunkSpecs([ReadBackWdl EXCEPT !.ver = vdef.ver]) = WdlChunkSpecs(vdef)
+    \* second write: the writer takes every decision from the version the reader put into the file
+    /\ (vrd.dev = {} => WdlChunkSpecs(ReadBackWdl) = WdlChunkSpecs(vdef))
+\* the pre-fix detection loses exactly the WMO group on the second write, and only in auto-detect mode
+WdlDeviationLoss == (vfmt = "wdl" /\ vpc = "done" /\ WdlValid(vdef) /\ vrd.dev # {}) =>
+    /\ vrd.hint = "Latest" /\ HasWmoChunks(vdef.ver) /\ vdef.names # <<>> /\ ~(\E wt \in vdef.tiles : MahoWritten(vdef, wt))
+    /\ WdlChunkSpecs(ReadBackWdl) = WdlChunkSpecs([vdef EXCEPT !.names = <<>>, !.nIdx = 0, !.nPlace = 0])
 
 \* conversions: tile data are never touched; a conversion of a valid WDT stays valid whenever the
 \* terrain MWMO is empty (as in every shipped terrain map)
